@@ -170,9 +170,10 @@ def load_known(pid):
 
 
 def key_matches(known, key):
-    """A known key matches exactly, or as a glob with trailing '*'."""
+    """A known key matches exactly or as a glob ('*' wildcards)."""
+    import fnmatch
     for k, text in known.items():
-        if k == key or (k.endswith("*") and key.startswith(k[:-1])):
+        if k == key or ("*" in k and fnmatch.fnmatchcase(key, k.replace("[", "[[]"))):
             return k, text
     return None, None
 
